@@ -1517,6 +1517,8 @@ class Ecdsa_pk_decompress(Instruction):
             )
 
         if contract_version >= 5:
+            if self._idx == "Secp256r1":
+                return 2400
             return 650
         return 0
 
@@ -5529,6 +5531,15 @@ class Sha3_256(Instruction):
     Pushes:
         pushes sha3_256 hash of value A ([32]byte).
     """
+
+    @property
+    def cost(self) -> int:
+        """cost of executing sha3_256 instruction.
+
+        Returns:
+            OpcodeCost of the instruction: 130.
+        """
+        return 130
 
     @property
     def stack_pop_size(self) -> int:
